@@ -22,6 +22,9 @@ pub struct SrvOpts {
     pub save_rules: Vec<(u64, u64)>,
     /// reuse an existing directory (restart on the same files)
     pub dir: Option<PathBuf>,
+    /// slow log, MONITOR support and statistics switched on in the configuration (another implementation of the
+    /// per-command bookkeeping is used then)
+    pub monitoring: bool,
 }
 
 pub struct Srv {
@@ -75,6 +78,11 @@ impl Srv {
         cfg.rdb.auto_save = opts.auto_save;
         if !opts.save_rules.is_empty() {
             cfg.rdb.save_rules = opts.save_rules.clone();
+        }
+        if opts.monitoring {
+            cfg.monitoring.slowlog_enabled = true;
+            cfg.monitoring.monitor_enabled = true;
+            cfg.monitoring.stats_enabled = true;
         }
         cfg.aof.dir = dir.to_string_lossy().to_string();
         if let Some(p) = opts.aof {
